@@ -2,9 +2,20 @@ module gosym
 
 go 1.26.8
 
-require golang.org/x/tools v0.50.0
+require (
+	github.com/multiformats/go-multihash v0.2.3
+	golang.org/x/tools v0.50.0
+)
 
 require (
+	github.com/klauspost/cpuid/v2 v2.3.0 // indirect
+	github.com/minio/sha256-simd v1.0.1 // indirect
+	github.com/mr-tron/base58 v1.3.0 // indirect
+	github.com/multiformats/go-varint v0.1.0 // indirect
+	github.com/spaolacci/murmur3 v1.1.0 // indirect
+	golang.org/x/crypto v0.53.0 // indirect
 	golang.org/x/mod v0.41.0 // indirect
 	golang.org/x/sync v0.23.0 // indirect
+	golang.org/x/sys v0.48.0 // indirect
+	lukechampine.com/blake3 v1.4.1 // indirect
 )
